@@ -13,7 +13,7 @@ Inductive header_site := InjectorWrite | StripDelete | Flatten | GapAuthFromSess
 Inductive forward_site := Declaration | GuardedAccessor | ParserTable | OptionDefault | ThroughParser | ParserUnderFlag | ParserCopied | ScopeFromOption | OptionRead | UnreviewedForward.
 
 Definition expected_cookie_surface : list (string * cookie_site) := [
-  ("pkg/cookies/cookies.go|MakeCookieFromOptions|literal|Name,Value,Path,Domain,HttpOnly,Secure,SameSite", TheConstructor);  (* the constructor modelled in Model/Cookies.v *)
+  ("pkg/cookies/cookies.go|MakeCookieFromOptions|literal|Name=name,Value=value,Path=opts.Path,Domain=domain,HttpOnly=opts.HTTPOnly,Secure=opts.Secure,SameSite=ParseSameSite(opts.SameSite)", TheConstructor);  (* the constructor modelled in Model/Cookies.v *)
   ("pkg/cookies/cookies.go|MakeCookieFromOptions|attr-write|c.MaxAge", TheConstructor);  (* Max-Age set inside the constructor *)
   ("pkg/cookies/cookies.go|MakeCookieFromOptions|attr-write|c.MaxAge", TheConstructor);  (* Max-Age set inside the constructor *)
   ("pkg/cookies/csrf.go|csrf.SetCookie|construct|MakeCookieFromOptions", CallsConstructor);  (* a call of MakeCookieFromOptions *)
@@ -25,7 +25,7 @@ Definition expected_cookie_surface : list (string * cookie_site) := [
   ("pkg/sessions/cookie/session_store.go|SessionStore.setSessionCookie|set|s.makeCookie(..)", EmitsConstructed);  (* makeCookie returns MakeCookieFromOptions(..) (listed as a construct site) *)
   ("pkg/sessions/cookie/session_store.go|SessionStore.setSessionCookie|set|c", EmitsConstructed);  (* element of makeSessionCookie: the constructed cookie or its copyCookie parts *)
   ("pkg/sessions/cookie/session_store.go|SessionStore.makeCookie|construct|MakeCookieFromOptions", CallsConstructor);  (* a call of MakeCookieFromOptions *)
-  ("pkg/sessions/cookie/session_store.go|copyCookie|literal|Name,Value,Path,Domain,Expires,RawExpires,MaxAge,Secure,HttpOnly,Raw,Unparsed,SameSite", CopyOfConstructed);  (* field-by-field copy of a constructed cookie (split parts; name and value replaced) *)
+  ("pkg/sessions/cookie/session_store.go|copyCookie|literal|Name=c.Name,Value=c.Value,Path=c.Path,Domain=c.Domain,Expires=c.Expires,RawExpires=c.RawExpires,MaxAge=c.MaxAge,Secure=c.Secure,HttpOnly=c.HttpOnly,Raw=c.Raw,Unparsed=c.Unparsed,SameSite=c.SameSite", CopyOfConstructed);  (* field-by-field copy of a constructed cookie (split parts; name and value replaced) *)
   ("pkg/sessions/persistence/ticket.go|ticket.setCookie|set|ticketCookie", EmitsConstructed);  (* result of ticket.makeCookie (a construct site) *)
   ("pkg/sessions/persistence/ticket.go|ticket.clearCookie|set|cookies.MakeCookieFromOptions(..)", EmitsConstructed);  (* argument is the constructor call itself *)
   ("pkg/sessions/persistence/ticket.go|ticket.clearCookie|construct|MakeCookieFromOptions", CallsConstructor);  (* a call of MakeCookieFromOptions *)
@@ -34,7 +34,7 @@ Definition expected_cookie_surface : list (string * cookie_site) := [
   ("pkg/sessions/tests/session_store_tests.go|SessionStoreInterfaceTests|construct|MakeCookieFromOptions", TestSupport);  (* helper package imported only by _test files *)
   ("pkg/sessions/tests/session_store_tests.go|SessionStoreInterfaceTests|header-name|set-cookie", TestSupport);  (* helper package imported only by _test files *)
   ("pkg/sessions/tests/session_store_tests.go|SessionStoreInterfaceTests|header-name|Set-Cookie", TestSupport);  (* helper package imported only by _test files *)
-  ("pkg/validation/cookie.go|validateCookieName|literal|Name", NeverEmitted)  (* configuration-time name check through Cookie.String, never written to a response *)
+  ("pkg/validation/cookie.go|validateCookieName|literal|Name=name", NeverEmitted)  (* configuration-time name check through Cookie.String, never written to a response *)
 ].
 
 Definition expected_forwarded_surface : list (string * forward_site) := [
